@@ -987,6 +987,17 @@ def strength(world, pool, tier, rng, extra_keys):
             tok = msg + b"." + (sig if sig is not None else b"AAAA")
             metas.append((len(world.ops), {"kind": "verify", "key": name, "bits": key.bits, "alg": alg, "may_accept": ok, "must_accept": ok}))
             world.op("ck 0 verify " + hx(tok), tag="verify")
+            if key.kind == "ec" and alg.startswith("ES") and not usable(key, alg):
+                # what the holder of this key can compute for an algorithm of another size: ECDSA over the algorithm's digest, framed at
+                # the key's own width and at the algorithm's
+                if name not in pool.okid:
+                    pool.okid[name] = pool.oracle.add_key(key.pem(True))
+                for width in sorted({key.width, {"ES256": 32, "ES256K": 32, "ES384": 48, "ES512": 66}[alg]}):
+                    fs = pool.oracle.sign_foreign(pool.okid[name], alg, msg, width) if width >= key.width else None
+                    if fs is not None:
+                        metas.append((len(world.ops), {"kind": "verify", "key": name + ", signature by this key over the algorithm's digest at %d octets" % width,
+                                                       "bits": key.bits, "alg": alg, "may_accept": False, "must_accept": False}))
+                        world.op("ck 0 verify " + hx(msg + b"." + K.b64u(fs).encode()), tag="verify")
     # an EC key is as big as its curve, however wide its coordinates are written (leading zero octets out to the width of
     # a bigger curve): P-256 stays a 256-bit key
     if "p256" in pool.keys:
@@ -2285,11 +2296,18 @@ def builder_routes_suite(world, pool, tier, rng, extra_keys=None):
                 adm = key.admissible_algs()
                 cfg_algs = [0] + sorted({K.ALG_ORD[a] for a in adm[:2]} | {1, 7, 15} | ({attr_ord} if attr_ord else set()))
                 for cfg_alg in cfg_algs:
-                    for route in ("setkey", "cb-key-only", "cb-key-alg", "setkey+cb-other", "setkey+cb-same-key-alg0", "setkey+cb-same-key-getalg",
+                    for route in ("setkey", "cb-passive+setkey", "cb-key-only", "cb-key-alg", "setkey+cb-other", "setkey+cb-same-key-alg0", "setkey+cb-same-key-getalg",
                                   "setkey-pin+cb-key-with-own-alg"):
                         world.op("bl 0 new", tag="cfg")
                         admitted = private and ((attr_ord == 0 and cfg_alg != 0) or (attr_ord != 0 and (cfg_alg == 0 or cfg_alg == attr_ord)))
-                        if route == "setkey":
+                        if route == "cb-passive+setkey":
+                            # a callback that only looks is installed FIRST; setkey is judged by the same table, and so is what generate uses
+                            world.op("bl 0 setcb getalg", tag="cfg")
+                            metas.append((len(world.ops), {"kind": "setkey", "expect_rc": 0 if admitted else 1, "cfg_alg": cfg_alg,
+                                                           "key": name + ("" if private else "-public") + " (a passive callback installed first)", "attr": attr}))
+                            world.op("bl 0 setkey %d %d %d" % ((cfg_alg,) + it), tag="cfg")
+                            eff_admitted, has_key, used = True, admitted, (cfg_alg or attr_ord)
+                        elif route == "setkey":
                             metas.append((len(world.ops), {"kind": "setkey", "expect_rc": 0 if admitted else 1, "cfg_alg": cfg_alg,
                                                            "key": name + ("" if private else "-public"), "attr": attr}))
                             world.op("bl 0 setkey %d %d %d" % ((cfg_alg,) + it), tag="cfg")
